@@ -255,6 +255,13 @@ def conventions(rep, tier, timeout):
         al = [var("alpha")]
         go("lift and drag already account for both halves (zero sideslip)", a, b, {"alpha": al, "beta": [0.0], "sec_forces": F},
            {"alpha": al, "beta": [0.0], "sec_forces": ext_panel_vec(F)}, {"L": lambda o: o["L"], "D": lambda o: o["D"]})
+        # TotalLift, TotalDrag (Coeffs has no surface option): coefficients of the surface are built the same way for a half and a full model (the
+        # factor of two is in L, D and S_ref already)
+        a, b, _, _ = pair(A + "total_lift", "TotalLift", over={"CL0": 0.25})
+        go("lift coefficient CL = CL1 + CL0", a, b, {"CL1": [var("CL1")]}, {"CL1": [var("CL1")]}, {"CL": lambda o: o["CL"]})
+        a, b, _, _ = pair(A + "total_drag", "TotalDrag", over={"CD0": 0.0125})
+        comm = {"CDi": [var("CDi")], "CDv": [var("CDv")], "CDw": [var("CDw")]}
+        go("drag coefficient CD = CDi + CDv + CDw + CD0", a, b, comm, comm, {"CD": lambda o: o["CD"]})
         # LiftCoeff2D on the modelled half
         a, b, _, _ = pair(A + "lift_coeff_2D", "LiftCoeff2D")
         w, c = symarray("widths", (nym,)), symarray("chords", (nyh,))
